@@ -1,7 +1,13 @@
 // C06 / PLAIN: the server side of PlainMechanism accepts a HELLO only if BOTH credentials equal the configured ones.
-// Bounded stand-in (never counted as proved): expected credentials of 0..=2 bytes each, token of at most VK_TOK bytes,
+// Bounded stand-in (never counted as proved): expected credentials of 0..=1 byte each, token of at most VK_TOK bytes,
 // all bytes symbolic.  Independent of how the comparison is written (closures, iterators, helper functions).
-const VK_TOK: usize = 11;
+const VK_TOK: usize = 10;
+
+// diagnostics only: String::from_utf8_lossy(command_name) feeds error texts (its UTF-8 scanning loop is costly for CBMC)
+#[allow(dead_code)]
+fn vk_lossy(_v: &[u8]) -> std::borrow::Cow<'_, str> {
+  std::borrow::Cow::Borrowed("")
+}
 
 fn vk_expected_hello(tok: &[u8]) -> Option<(&[u8], &[u8])> {
   if tok.len() < 6 || tok[0] != 5 || &tok[1..6] != b"HELLO" {
@@ -26,14 +32,15 @@ fn vk_expected_hello(tok: &[u8]) -> Option<(&[u8], &[u8])> {
 
 #[cfg_attr(kani, kani::proof)]
 #[cfg_attr(not(kani), test)]
-#[cfg_attr(kani, kani::unwind(14))]
+#[cfg_attr(kani, kani::unwind(12))]
 #[cfg_attr(kani, kani::stub(alloc::fmt::format, vk_format))]
+#[cfg_attr(kani, kani::stub(alloc::string::String::from_utf8_lossy, vk_lossy))]
 fn vk_plain_server_accepts_only_configured_credentials() {
-  let eu: [u8; 2] = vk_any();
-  let ep: [u8; 2] = vk_any();
+  let eu: [u8; 1] = vk_any();
+  let ep: [u8; 1] = vk_any();
   let eul: usize = vk_any();
   let epl: usize = vk_any();
-  vk_assume(eul <= 2 && epl <= 2);
+  vk_assume(eul <= 1 && epl <= 1);
   let have_user: bool = vk_any();
   let have_pass: bool = vk_any();
   let tok: [u8; VK_TOK] = vk_any();
